@@ -42,6 +42,10 @@ type Modules struct {
 	// ignored. The keys of the map are a string that is formed by concatenating
 	// the name of the including (sub)module and the included submodule.
 	mergedSubmodule map[string]bool
+	// expandingGrouping holds the groupings whose expansion by ToEntry is in
+	// progress, so that a grouping that (indirectly) uses itself is reported
+	// rather than expanded forever.
+	expandingGrouping map[*Grouping]bool
 	// ParseOptions sets the options for the current YANG module parsing. It can be
 	// directly set by the caller to influence how goyang will behave in the presence
 	// of certain exceptional cases.
@@ -63,6 +67,8 @@ func NewModules() *Modules {
 		mergedSubmodule: map[string]bool{},
 		entryCache:      map[Node]*Entry{},
 		pathMap:         map[string]bool{},
+
+		expandingGrouping: map[*Grouping]bool{},
 	}
 	return ms
 }
